@@ -218,30 +218,42 @@ def plan(tier):
     for original in (False, True):
         for (d, N, n) in ([(2, 3, 1), (2, 2, 2), (3, 2, 1), (2, 2, 1), (2, 3, 2)] if deep else
                           [(2, 3, 1), (2, 2, 2), (3, 2, 1)]):
-            if (d, N, n) == (2, 3, 2) and not original:
-                continue
+            if (d, N, n) == (2, 3, 2):
+                continue        # 4.3 M leaves (25 core-minutes): out of budget
             tasks.append(('batch', dict(kind='batch', original=original, d=d, N=N, n=n, model='scalar')))
         tasks.append(('batch', dict(kind='batch-explain-one', original=original, d=2, N=2, n=2, model='scalar')))
         tasks.append(('batch', dict(kind='batch', original=original, d=2, N=2, n=1, model='multi')))
     for (d, N, n) in [(2, 2, 1), (2, 2, 2), (3, 2, 1)] + ([(2, 3, 1)] if deep else []):
         tasks.append(('batch', dict(kind='interval', original=False, d=d, N=N, n=n, model='scalar')))
-    return tasks
+    out, seen = [], set()
+    for t in tasks:
+        if repr(t) not in seen:
+            seen.add(repr(t))
+            out.append(t)
+    return out
 
 
 def desc(cfg):
     return ', '.join(f"{k}={v}" for k, v in cfg.items())
 
 
-def run_task(task):
-    part, cfg = task
+GRID = ((0.5,), None)
+
+
+def driver_of(part, cfg):
+    return inc_driver(cfg) if part == 'inc' else batch_driver(cfg)
+
+
+def explore_part(sub):
+    """Full weighted enumeration of the sub-tree below `root`; returns the per-history accumulators."""
+    part, cfg, root = sub
     groups = {}
-    perms = set()
 
     def on_leaf(run, res):
         hist, rows, values, xy = res
         g = groups.get(hist)
         if g is None:
-            g = groups[hist] = {'w': F(0), 'acc': {}, 'rows': rows, 'xy': xy, 'outcomes': set()}
+            g = groups[hist] = {'w': F(0), 'acc': {}, 'rows': rows, 'xy': xy, 'outcomes': set(), 'float': False}
         w = run.weight
         g['w'] += w
         for f, v in values.items():
@@ -250,14 +262,34 @@ def run_task(task):
                 g['float'] = True
             g['acc'][f] = g['acc'].get(f, 0) + w * v
         g['outcomes'].add(tuple(sorted((repr(k), v) for k, v in values.items())))
-    drv = inc_driver(cfg) if part == 'inc' else batch_driver(cfg)
-    st = choice.explore(drv, on_leaf=on_leaf, bound=None, float_policy=lambda i: ((0.5,), None), weighted=True)
-    viol = list(st.violations)
-    if st.unscripted:
-        return dict(task=task, executions=st.executions, violations=[], unscripted=st.unscripted, groups=0,
-                    outcomes=0, sample=None)
-    if not viol and st.leaf_weight != 1:
-        raise choice.HarnessError(f"leaf weights sum to {st.leaf_weight} for {desc(cfg)}")
+    st = choice.explore(driver_of(part, cfg), on_leaf=on_leaf, bound=None, root=root, float_policy=lambda i: GRID,
+                        weighted=True)
+    return dict(key=repr((part, cfg)), groups=groups, executions=st.executions, weight=st.leaf_weight,
+                violations=list(st.violations), unscripted=st.unscripted)
+
+
+def finalize(part, cfg, parts):
+    groups = {}
+    execs = sum(p['executions'] for p in parts)
+    viol = [v for p in parts for v in p['violations']]
+    unscripted = sum(p['unscripted'] for p in parts)
+    for p in parts:
+        for hist, g in p['groups'].items():
+            t = groups.get(hist)
+            if t is None:
+                groups[hist] = g
+            else:
+                t['w'] += g['w']
+                for f, v in g['acc'].items():
+                    t['acc'][f] = t['acc'].get(f, 0) + v
+                t['outcomes'] |= g['outcomes']
+                t['float'] = t['float'] or g['float']
+    task = (part, cfg)
+    if unscripted:
+        return dict(task=task, executions=execs, violations=[], unscripted=unscripted, groups=0, outcomes=0, sample=None)
+    total = sum(p['weight'] for p in parts)
+    if not viol and total != 1:
+        raise choice.HarnessError(f"leaf weights sum to {total} for {desc(cfg)}")
     sample = None
     n_out = 0
     for hist, g in groups.items():
@@ -271,7 +303,7 @@ def run_task(task):
             ctx = f"data set of {cfg['N']} rows"
         n_out += len(g['outcomes'])
         if sample is None:
-            sample = {'config': cfg, 'leaves': st.executions, 'histories': len(groups),
+            sample = {'config': cfg, 'leaves': execs, 'histories': len(groups),
                       'expected_contribution': {str(k): str(v) if not g.get('float') else float(v) for k, v in exp.items()},
                       'brute_force_reference': {str(k): str(v) for k, v in ref.items()}}
         tol = 0
@@ -281,17 +313,29 @@ def run_task(task):
             name = {'inc': 'Incremental' + ('Sage' if cfg.get('expl') == 'sage' else 'PFI')}.get(part, cfg.get('kind'))
             key = f"{PID}/{name}{'-original' if cfg.get('original') else ''}/biased" + \
                   ('-after-history' if cfg.get('H') else '')
-            viol.append((key, f"[{desc(cfg)}] expected contribution over all {st.executions} draw outcomes "
+            viol.append((key, f"[{desc(cfg)}] expected contribution over all {execs} draw outcomes "
                               f"({ctx}) is { {str(k): str(v) for k, v in exp.items()} } but the exact value defined by "
                               f"the storage content is { {str(k): str(v) for k, v in ref.items()} }", {}, hist))
             break
-    return dict(task=task, executions=st.executions, violations=viol, unscripted=0, groups=len(groups),
+    return dict(task=task, executions=execs, violations=viol, unscripted=0, groups=len(groups),
                 outcomes=n_out, sample=sample)
+
+
+def run_task(task):
+    part, cfg = task
+    return finalize(part, cfg, [explore_part((part, cfg, ()))])
 
 
 def main(rep):
     tasks = plan(rep.tier)
-    results = choice.pmap(run_task, tasks, chunksize=1)
+    subs = []
+    for part, cfg in tasks:          # split every tree at depth 2 so that big trees use all cores
+        for root in choice.frontier(driver_of(part, cfg), 2, lambda i: GRID):
+            subs.append((part, cfg, root))
+    parts = {}
+    for p in choice.pmap(explore_part, subs, chunksize=1):
+        parts.setdefault(p['key'], []).append(p)
+    results = [finalize(part, cfg, parts[repr((part, cfg))]) for part, cfg in tasks]
     states = 0
     for r in results:
         part, cfg = r['task']
